@@ -1361,6 +1361,7 @@ pub fn check(case: &Case, out: &mut CaseOut) {
 
 pub fn property() -> Property {
     Property {
+        fuzz: vec![],
         id: "C10",
         rule: "case = role (UAS: dialog from a peer INVITE via Dialog::new_server; UAC: ClientDialogBuilder + real INVITE client transaction answered 200 by the peer) x start CSeq x n<=7 in-dialog requests with consecutive CSeq k+1..k+n (methods INFO/UPDATE/MESSAGE/BYE/OPTIONS/NOTIFY/REFER, tags and Call-ID as the peer derives them, unique X-Seq marker and branch per copy) in an arrival order, with retransmissions (same branch), re-sent copies (new branch), near-miss requests (Call-ID / From-tag / To-tag differing, no To-tag, no From-tag, tags swapped), ACKs with the INVITE's CSeq, a drop of the taking usage's guard, short waits and back-to-back arrivals (no scheduling point in between) interleaved; the taking usage yields 0..3 times inside receive. Non-trivial = the first arrivals are not in CSeq order (>=1 inversion), or a CSeq arrives more than once, or a near-miss request is present; distinct by hash of the case.",
         assumptions: vec![
